@@ -22,7 +22,8 @@ EXPLANATION = (
     'R6 the three summary flags are exclusive and exhaustive (truth table over two atoms); '
     'R7 the value compared at the check site is initialised in the same iteration. '
     'These are necessary conditions of the property; the comparison results on concrete strings and the '
-    'trailing-sequence search are not decided.')
+    'trailing-sequence search are not decided.'
+    ' R5b has_any_code applies its comment test to stripped lines. R9 got and want keep their sides at every call into the checker (ROLE-AGREE, same clause as C05.R12). R10 = C01.R9 (a want is compared with the value of a statement compiled on its own).')
 DECIDES = ['NEVER-AFTER(fail store -> exec/check)', 'GUARD-DOM(check | want)', 'typestate(_unmatched_stdout)',
            'FLOW(got_eval -> repr -> check_output)', 'GUARD-DOM(exec | has_any_code) + skip record', 'FINITE-EVAL(summary flags)',
            'per-iteration initialisation of got_eval']
